@@ -23,6 +23,13 @@ followed by a "\n" in the view.  A view that ends with "\n" has an empty last fr
 nothing of it is lost (`C07_quit_inline_terminated`); a view that does not has its unterminated
 last line erased by the EL2 — exactly what the property says.
 
+Quitting while the terminal is released (section 4): ReleaseTerminal has already called `stop`
+once; Run's shutdown calls it again after the final `write`.  `stop` invalidates the renderer's
+caches after erasing the cursor line (`standardRenderer.stop` calls `repaint`), so the inline
+invariant holds after a stop (`C07_stop_inv`) and the second stop paints every line of the final
+view in place (`C07_quit_released`); the concrete runs of section 5 show the final view losing a
+line with the `stop` that left the caches valid.
+
 Limits: the theorems are about the inline (main screen) renderer with no printed lines queued;
 on the alt screen `shutdown` leaves the alt screen right after `stop`, so what remains visible
 is the restored main screen (C12).  Whether the bytes reach the terminal before Run returns
@@ -54,13 +61,28 @@ theorem C07_coalesced (r : RState) (vs : List Bytes) (h : vs ≠ []) :
 before the cursor line is erased (EL2) and the cursor returned to column 0 (CR).  The final
 view does not depend on a frame tick having elapsed. -/
 theorem C07_stop_flushes_first (r : RState) :
-    stop r = ((flush r).1, (flush r).2 ++ [.el2, .cr]) :=
+    stop r = ((flush r).1.repaint, (flush r).2 ++ [.el2, .cr]) :=
   stop_eq r
+/- Statement before the repair of `standardRenderer.stop` (now FALSE: the state after `stop` is the
+   state after the flush with `lastRender := []`, `lastLines := none`; what is written is unchanged):
+     theorem C07_stop_flushes_first (r : RState) :
+         stop r = ((flush r).1, (flush r).2 ++ [.el2, .cr]) -/
 
 /-- the same as a renderer step -/
 theorem C07_stop_step (r : RState) :
-    step r .stop = ((step r .flush).1, (step r .flush).2 ++ [.el2, .cr]) :=
+    step r .stop = ((step r .flush).1.repaint, (step r .flush).2 ++ [.el2, .cr]) :=
   stop_eq r
+/- Statement before the repair (now FALSE, for the same reason):
+     theorem C07_stop_step (r : RState) :
+         step r .stop = ((step r .flush).1, (step r .flush).2 ++ [.el2, .cr]) -/
+
+/-- WHAT `stop` WRITES is the flush and then EL2, CR, exactly; and the renderer state after `stop`
+is the state after that flush except for the two caches, which are invalidated (`lastRender = []`,
+`lastLines = none`): every other field — `linesRendered` in particular — is as the flush left it. -/
+theorem C07_stop_writes_and_state (r : RState) :
+    (stop r).2 = (flush r).2 ++ [.el2, .cr] ∧
+    (stop r).1 = { (flush r).1 with lastRender := [], lastLines := none } :=
+  ⟨rfl, rfl⟩
 
 /-! ### 2. what the terminal shows after `write s; stop` -/
 
@@ -251,7 +273,107 @@ theorem C07_quit_after_history (r : RState) (t : Term) (hinv : InlineInv r t) (h
   intro ρ hρ c
   rw [c9 ρ hρ c, a8 ρ hρ c]
 
-/-! ### 4. concrete runs (non-vacuity), W = 10, H = 5, inline, cursor on window row 0 -/
+/-! ### 4. the program quits while its terminal is released (a second `stop` after a `stop`) -/
+
+/-- **AFTER `stop` THE RENDERER AND THE TERMINAL AGREE AGAIN.**  ReleaseTerminal (and every
+shutdown) stops the renderer: flush, EL2, CR, caches invalidated.  From the inline invariant with
+no printed lines queued, after `stop`: the inline invariant HOLDS AGAIN; nothing is queued; both
+caches are invalid (`lastRender = []`, `lastLines = none`), so the next flush of any view can skip
+no line; `linesRendered` is what the flush left — it still counts the erased cursor row —, hence
+the view still starts at `viewTop r t` and the cursor is on the last of the `max linesRendered 1`
+view rows, in column 0 with no pending wrap; that row is blank; rows above the view, the alt screen
+and the size are untouched.  (With the caches left valid, as before the repair, the invariant
+would be false here: the cache would claim that the erased row still shows its line.) -/
+theorem C07_stop_inv (r : RState) (t : Term) (hinv : InlineInv r t) (hq : r.queued = [])
+    (r1 : RState) (t1 : Term) (hr1 : r1 = (stop r).1) (ht1 : t1 = applyOps t (stop r).2) :
+    InlineInv r1 t1 ∧ r1.queued = [] ∧ r1.lastRender = [] ∧ r1.lastLines = none ∧
+    r1.linesRendered = (flush r).1.linesRendered ∧ r1.height = r.height ∧ r1.width = r.width ∧
+    viewTop r1 t1 = viewTop r t ∧ t1.alt = t.alt ∧ t1.w = t.w ∧ t1.h = t.h ∧
+    t1.main.cr + 1 = viewTop r t + max r1.linesRendered 1 ∧
+    t1.main.cc = 0 ∧ t1.main.pw = false ∧
+    t1.main.row t.w t1.main.cr = List.replicate t.w 32 ∧
+    (∀ ρ, ρ < viewTop r t → ∀ c, t1.main.cells ρ c = t.main.cells ρ c) := by
+  obtain ⟨a1, a2, a3, a4, a5, a6, a7, a8, a9, a10, a11, a12, a13, a14, a15, a16⟩ :=
+    inline_stop_inv r t hinv hq r1 t1 hr1 ht1
+  exact ⟨a1, a2, a3, a4, a5, a6, a7, a8, a9, a10, a11, a12, a13, a14,
+    (rowBlank_iff_row _ _ _).1 a15, a16⟩
+
+/-- **THE PROGRAM QUITS WHILE ITS TERMINAL IS RELEASED.**  From the inline invariant with no
+printed lines queued: `stop` (ReleaseTerminal: flush, erase the cursor line) gives `r1`, `t1`; the
+model keeps updating while released and Run's shutdown does `write r1 s` and a SECOND `stop`.
+With `ls` the frame of `s` (`n` lines, `1 ≤ n ≤ h`) and `R0 = viewTop r t` the tape row where the
+view started before the release:
+
+(o) the second stop's flush prints EVERY line of the frame (cut at the width) — no line is
+    skipped as "unchanged", in particular not the line of the cursor row that the first stop
+    erased: the caches are invalid after the first stop;
+(a) every newline-terminated line is in place: for `i + 1 < n`, row `R0 + i` shows `ls[i]` (its
+    visible part) cut at the width and padded with blanks — from the SAME first view row;
+(b) the cursor is on row `R0 + n - 1`, in column 0 with no pending wrap;
+(c) that row is blank (EL2 erased the unterminated last line, if there was one);
+(d) every window row below the cursor is blank: nothing stale of the view shown before the
+    release remains;
+(e) every row above `R0` is as it was before the FIRST stop; the window scrolled, from where the
+    first stop left it, by exactly what the view needed; the alt screen and the size are untouched.
+
+This is `C07_quit_inline` for the second of two stops; it rests on `C07_stop_inv`. -/
+theorem C07_quit_released (r : RState) (t : Term) (hinv : InlineInv r t) (hq : r.queued = [])
+    (s : Bytes) (r1 : RState) (t1 t' : Term)
+    (hr1 : r1 = (stop r).1) (ht1 : t1 = applyOps t (stop r).2)
+    (ht' : t' = applyOps t1 (stop (write r1 s)).2) :
+    frameLines (write r1 s) = frameLines (write r s) ∧
+    (∀ l, l ∈ frameLines (write r s) →
+      TermOp.text (if r.width > 0 then truncateLine r.width l else l) ∈ (stop (write r1 s)).2) ∧
+    1 ≤ (frameLines (write r s)).length ∧ (frameLines (write r s)).length ≤ t.h ∧
+    (∀ i l, i + 1 < (frameLines (write r s)).length → (frameLines (write r s))[i]? = some l →
+      t'.main.row t.w (viewTop r t + i) = padLine t.w (Ansi.visible l)) ∧
+    t'.main.cr + 1 = viewTop r t + (frameLines (write r s)).length ∧
+    t'.main.cc = 0 ∧ t'.main.pw = false ∧
+    t'.main.row t.w t'.main.cr = List.replicate t.w 32 ∧
+    (∀ ρ, t'.main.cr < ρ → ρ < t'.main.top + t.h → t'.main.row t.w ρ = List.replicate t.w 32) ∧
+    (∀ ρ, ρ < viewTop r t → ∀ c, t'.main.cells ρ c = t.main.cells ρ c) ∧
+    t'.main.top = max t1.main.top (viewTop r t + (frameLines (write r s)).length - t.h) ∧
+    t'.alt = t.alt ∧ t'.w = t.w ∧ t'.h = t.h ∧ t'.onAlt = false := by
+  obtain ⟨a1, a2, a3, a4, _, a6, a7, a8, a9, a10, a11, _, _, _, _, a16⟩ :=
+    C07_stop_inv r t hinv hq r1 t1 hr1 ht1
+  obtain ⟨c1, c2, c3, c4, c5, c6, c7, c8, c9, c10, c11, c12, c13, c14⟩ :=
+    C07_quit_inline r1 t1 a1 a2 s t' ht'
+  have hf : frameLines (write r1 s) = frameLines (write r s) := frameLines_write_congr r r1 s a6
+  rw [hf] at c1 c2 c3 c4 c10
+  rw [a8] at c3 c4 c9 c10
+  rw [a10] at c3 c7 c8 c12
+  rw [a11] at c2 c8 c10 c13
+  refine ⟨hf, ?_, c1, c2, c3, c4, c5, c6, c7, c8, ?_, c10, by rw [c11, a9], c12, c13, c14⟩
+  · intro l hl
+    rw [stop_ops]
+    apply List.mem_append_left
+    have := flush_prints_all (write r1 s) (write_buf_ne r1 s) a3 a4 l (by rw [hf]; exact hl)
+    rw [← a7]
+    exact this
+  · intro ρ hρ c
+    rw [c9 ρ hρ c, a16 ρ hρ c]
+
+/-- ... and a view that ends with a newline is on screen completely after the second stop too:
+every frame line — the blank last one included — is on its row, from the same first view row. -/
+theorem C07_quit_released_terminated (r : RState) (t : Term) (hinv : InlineInv r t)
+    (hq : r.queued = []) (v : Bytes) (r1 : RState) (t1 t' : Term)
+    (hr1 : r1 = (stop r).1) (ht1 : t1 = applyOps t (stop r).2)
+    (ht' : t' = applyOps t1 (stop (write r1 (v ++ [10]))).2) :
+    (frameLines (write r (v ++ [10]))).getLast? = some [] ∧
+    (∀ i l, (frameLines (write r (v ++ [10])))[i]? = some l →
+      t'.main.row t.w (viewTop r t + i) = padLine t.w (Ansi.visible l)) ∧
+    t'.main.cr + 1 = viewTop r t + (frameLines (write r (v ++ [10]))).length ∧
+    t'.main.cc = 0 ∧ t'.main.pw = false := by
+  obtain ⟨a1, a2, _, _, _, a6, _, a8, _, a10, _⟩ := C07_stop_inv r t hinv hq r1 t1 hr1 ht1
+  obtain ⟨_, c2, c3, c4, c5, c6⟩ := C07_quit_inline_terminated r1 t1 a1 a2 v t' ht'
+  have hf : frameLines (write r1 (v ++ [10])) = frameLines (write r (v ++ [10])) :=
+    frameLines_write_congr r r1 _ a6
+  rw [hf] at c2 c3 c4
+  rw [a8] at c3 c4
+  rw [a10] at c3
+  exact ⟨c2, c3, c4, c5, c6⟩
+
+/-! ### 5. concrete runs (non-vacuity), W = 10, H = 5, inline, cursor on window row 0 -/
 
 def r0 : RState := { width := 10, height := 5 }
 def t0 : Term := { w := 10, h := 5 }
@@ -311,5 +433,89 @@ example :
       [[97,97,97,32,32,32,32,32,32,32], [66,66,66,32,32,32,32,32,32,32],
        List.replicate 10 32, List.replicate 10 32, List.replicate 10 32] ∧
     t'.main.cr = 1 ∧ t'.main.cc = 0 := by decide
+
+/-! #### released, then quit -/
+
+/-- the terminal after: the view `a` rendered (write + flush), `stop` (ReleaseTerminal), then the
+view `b` written while released and a second `stop` (the quit) -/
+def quitReleased (a b : Bytes) : Term :=
+  let rt := renderViews r0 t0 [a]
+  let r1 := (stop rt.1).1
+  let t1 := applyOps rt.2 (stop rt.1).2
+  applyOps t1 (stop (write r1 b)).2
+
+set_option maxRecDepth 100000 in
+/-- after the first stop (view "a\nb\nc" rendered, then released): rows "a", "b", the cursor row
+(where "c" was) blank, cursor at its column 0; the renderer still counts 3 lines, caches invalid -/
+example :
+    let rt := renderViews r0 t0 [[97,10,98,10,99]]
+    let r1 := (stop rt.1).1
+    let t1 := applyOps rt.2 (stop rt.1).2
+    rows t1 5 =
+      [[97,32,32,32,32,32,32,32,32,32], [98,32,32,32,32,32,32,32,32,32],
+       List.replicate 10 32, List.replicate 10 32, List.replicate 10 32] ∧
+    t1.main.cr = 2 ∧ t1.main.cc = 0 ∧ t1.main.pw = false ∧
+    r1.linesRendered = 3 ∧ r1.lastLines = none ∧ r1.lastRender = [] := by decide
+
+set_option maxRecDepth 100000 in
+/-- view "a\nb\nc" rendered, stop (release), then view "a\nb\nX\nd" written, stop again (quit):
+rows "a", "b", "X"; the row of "d" is blank (erased by the second stop), cursor at its column 0 -/
+example :
+    let t' := quitReleased [97,10,98,10,99] [97,10,98,10,88,10,100]
+    rows t' 5 =
+      [[97,32,32,32,32,32,32,32,32,32], [98,32,32,32,32,32,32,32,32,32],
+       [88,32,32,32,32,32,32,32,32,32], List.replicate 10 32, List.replicate 10 32] ∧
+    t'.main.cr = 3 ∧ t'.main.cc = 0 ∧ t'.main.pw = false ∧ t'.main.top = 0 := by decide
+
+set_option maxRecDepth 100000 in
+/-- view "a\nb\nc" rendered, stop (release), then view "a\nb\nc\nd" written, stop again: the line
+"c" — erased by the first stop, unchanged in the view — is PAINTED AGAIN: rows "a", "b", "c", and
+the row of "d" blank with the cursor at its column 0 -/
+example :
+    let t' := quitReleased [97,10,98,10,99] [97,10,98,10,99,10,100]
+    rows t' 5 =
+      [[97,32,32,32,32,32,32,32,32,32], [98,32,32,32,32,32,32,32,32,32],
+       [99,32,32,32,32,32,32,32,32,32], List.replicate 10 32, List.replicate 10 32] ∧
+    t'.main.cr = 3 ∧ t'.main.cc = 0 ∧ t'.main.pw = false := by decide
+
+set_option maxRecDepth 100000 in
+/-- what the second stop wrote in that run: CUU 2, then EVERY line ("a", "b", "c", "d"), CUB, and
+EL2, CR -/
+example :
+    let rt := renderViews r0 t0 [[97,10,98,10,99]]
+    (stop (write (stop rt.1).1 [97,10,98,10,99,10,100])).2 =
+    [.cuu 2, .cr, .text [97], .el0, .cr, .lf, .text [98], .el0, .cr, .lf, .text [99], .el0, .cr, .lf,
+     .text [100], .el0, .cub 10, .el2, .cr] := by decide
+
+/-- `stop` as it was BEFORE the repair: flush, EL2, CR, the caches left as the flush left them -/
+def stopOld (r : RState) : RState × List TermOp :=
+  let (r', ops) := flush r
+  (r', ops ++ [.el2, .cr])
+
+/-- `quitReleased` with the old `stop` -/
+def quitReleasedOld (a b : Bytes) : Term :=
+  let rt := renderViews r0 t0 [a]
+  let r1 := (stopOld rt.1).1
+  let t1 := applyOps rt.2 (stopOld rt.1).2
+  applyOps t1 (stopOld (write r1 b)).2
+
+/-- the old and the new `stop` write the same operations; only the state afterwards differs -/
+example (r : RState) : (stopOld r).2 = (stop r).2 ∧ (stop r).1 = (stopOld r).1.repaint :=
+  ⟨rfl, rfl⟩
+
+set_option maxRecDepth 100000 in
+/-- THE DEFECT THAT WAS REPAIRED.  With the old `stop`, view "a\nb\nc" rendered, stop (release),
+view "a\nb\nc\nd" written, stop again: the second flush SKIPS line "c" (unchanged in the cache)
+although the first stop erased it — the screen shows "a", "b", "" : row 2 is blank, the line "c"
+of the final view is missing — and the second stop wrote no "c" at all -/
+example :
+    let t' := quitReleasedOld [97,10,98,10,99] [97,10,98,10,99,10,100]
+    rows t' 5 =
+      [[97,32,32,32,32,32,32,32,32,32], [98,32,32,32,32,32,32,32,32,32],
+       List.replicate 10 32, List.replicate 10 32, List.replicate 10 32] ∧
+    t'.main.cr = 3 ∧ t'.main.cc = 0 ∧
+    (let rt := renderViews r0 t0 [[97,10,98,10,99]]
+     (stopOld (write (stopOld rt.1).1 [97,10,98,10,99,10,100])).2 =
+       [.cuu 2, .lf, .lf, .lf, .text [100], .el0, .cub 10, .el2, .cr]) := by decide
 
 end Tea.Props.C07
